@@ -153,6 +153,41 @@ theorem map_encoding_order_matters :
     writeList entry.encode [e1, e2] ≠ writeList entry.encode [e2, e1] := by
   decide
 
+/-! ### AvailableCommands: the brigadier number-argument bounds (the argument property with sentinels)
+
+AvailableCommands has no schema (its graph is not a field list), but its one value-dependent property codec is
+modelled and proved on its own (`NumBounds.lean`), for float/double (bit patterns)/integer/long alike. -/
+
+/-- every pair of bounds — the "unbounded" sentinels, bounds beyond them (long minima below −2³¹ = brigodier's
+    `MinInt64`, ±Inf, NaN, −0.0, subnormals as bit patterns) and ordinary ones — comes back exactly -/
+theorem number_bounds_roundtrip (k : NumKind) (mn mx : Val) (rest : Bytes) (h1 : k.leaf.wf mn) (h2 : k.leaf.wf mx) :
+    nbDecode k (nbEncode k mn mx ++ rest) = .ok ((mn, mx), rest) := numBounds_RT k mn mx rest h1 h2
+
+/-- the flag byte is exactly (min ≠ lo, max ≠ hi) -/
+theorem number_bounds_flag (k : NumKind) (mn mx : Val) :
+    (nbEncode k mn mx).head? =
+      some (UInt8.ofNat ((if mn ≠ k.lo then 1 else 0) + (if mx ≠ k.hi then 2 else 0))) := rfl
+
+/-- the sentinels themselves are values of the leaf's domain, for all four kinds (so the theorem is not vacuous
+    for the defaults) -/
+theorem number_bounds_sentinels_wf :
+    ∀ name ∈ ["f32", "f64", "i32", "i64"], ∃ k, numKind name = some k ∧ k.leaf.wf k.lo ∧ k.leaf.wf k.hi := by
+  intro name hn
+  simp only [List.mem_cons, List.mem_nil_iff, or_false] at hn
+  rcases hn with rfl | rfl | rfl | rfl
+  · exact ⟨_, rfl, ⟨0xFF7FFFFF, rfl, by decide⟩, ⟨0x7F7FFFFF, rfl, by decide⟩⟩
+  · exact ⟨_, rfl, ⟨0xFFEFFFFFFFFFFFFF, rfl, by decide⟩, ⟨0x7FEFFFFFFFFFFFFF, rfl, by decide⟩⟩
+  · exact ⟨_, rfl, ⟨_, rfl, by decide, by decide, by decide⟩, ⟨_, rfl, by decide, by decide, by decide⟩⟩
+  · exact ⟨_, rfl, ⟨_, rfl, by decide, by decide, by decide⟩, ⟨_, rfl, by decide, by decide, by decide⟩⟩
+
+/-- writing a bound only when it lies strictly inside (lo, hi) loses every bound outside: a long minimum of −5·10⁹
+    is omitted (flag = max only) although it is not the sentinel -/
+theorem number_bounds_fails_for_ordered_variant :
+    ∃ k, numKind "i64" = some k ∧
+      (nbEncodeOrdered k (.int (-5000000000)) (.int 5000000000)).head? = some 2 ∧
+      (nbEncode k (.int (-5000000000)) (.int 5000000000)).head? = some 3 :=
+  ⟨_, rfl, by decide, by decide⟩
+
 /-! ### non-vacuity: ordinary values are in the domain -/
 
 /-- a handshake: protocol 767, host "a.b", port 25565, next state 2 -/
